@@ -60,6 +60,10 @@ def run(ctx: Ctx, rep: Report) -> None:
     from .qasm_regs import regoff
     regoff(ctx, rep)
     declonce(ctx, rep)
+    # grammar hygiene and agreement of the list walkers with the grammar
+    from . import qasm_grammar
+    qasm_grammar.hygiene(ctx, rep)
+    qasm_grammar.listwalk(ctx, rep)
     # formal parameters of a written `gate` body (shared with C06)
     from .C06 import qasm_def_cursor
     rep.floor('CURSOR', qasm_def_cursor(ctx, rep), 1,
